@@ -14,13 +14,14 @@
      there.  Missing: the fairness argument (a producer between swap and store eventually stores; the
      consumer keeps popping).
    * C19_head_report_partial: claims (a)-(d) hold for the model, where `ptr::eq(tail, prev)` is node identity.
-     Not modelled: the allocator re-using the address of a freed node.  The window in which this could matter
+     Not modelled: the allocator re-using the address of a freed node.  The window in which this matters
      (prev already freed when the producer reads the consumer position) is reachable, see
-     C19_stale_prev_window_reachable; only claim (c) (no spurious `true`) depends on it, claims (a), (b)
-     (no missed head) and (d) compare with a node that is still the stub and hence not freed. *)
+     C19_stale_prev_window_reachable, and with re-use claim (c) (no spurious `true`) is refuted for the
+     address comparison: C19_head_report_c_refuted_under_address_reuse (replayed on the real code).
+     Claims (a), (b) (no missed head) and (d) compare with a node that is still the stub, hence not freed. *)
 From Coq Require Import List Arith Bool ZArith.
 Import ListNotations.
-Require Import MayV.Queue.ListV1Model MayV.Queue.ListV1Inv MayV.Queue.ListV1Thm MayV.Queue.ListV1Accept.
+Require Import MayV.Queue.ListV1Model MayV.Queue.ListV1Inv MayV.Queue.ListV1Thm MayV.Queue.ListV1Accept MayV.Queue.ListV1Aba.
 
 (* ---------------------------------------------------------------------------------------------- (i) *)
 
@@ -141,6 +142,25 @@ Theorem C19_head_report_partial :
   (qclk x = kclock s -> r = qempty x).
 Proof. exact head_report. Qed.
 Print Assumptions C19_head_report_partial.
+
+(* Claim (c) for the comparison the code really makes (addresses): REFUTED when the allocator hands the
+   address of the freed `prev` node to a later node that has become the stub.  Overlay model with addresses
+   in Queue/ListV1Aba.v; the witness schedule was replayed on the real list (harness/src/bin/q_list_aba.rs:
+   the oracle "is_head=true but the entry was already consumed" fires).  Benign for the timers (one
+   superfluous install / wake-up), but a violation of the property as worded. *)
+Theorem C19_head_report_c_refuted_under_address_reuse :
+  exists x, Reach2 x /\
+    match qp (P (fst x) 1) with Q3 => true | _ => false end = true /\
+    code_flag x 1 = true /\ model_flag x 1 = false /\
+    cons (nodes (fst x) (qn (P (fst x) 1))) = 1 /\ monitors_ok (fst x) = true.
+Proof. exact head_report_c_refuted_under_address_reuse. Qed.
+Print Assumptions C19_head_report_c_refuted_under_address_reuse.
+
+(* every state of the address overlay projects to a reachable state of the model *)
+Theorem C19_address_overlay_projects :
+  forall x, Reach2 x -> Reach (fst x).
+Proof. exact reach2_reach. Qed.
+Print Assumptions C19_address_overlay_projects.
 
 (* ---------------------------------------------------------------------------------------------- (v) *)
 
